@@ -21,6 +21,7 @@ import (
 	"math/big"
 	"os"
 	"path/filepath"
+	"reflect"
 	"regexp"
 	"sort"
 	"strings"
@@ -28,6 +29,7 @@ import (
 	mpc "github.com/markkurossi/mpc"
 	"github.com/markkurossi/mpc/circuit"
 	"github.com/markkurossi/mpc/compiler"
+	"github.com/markkurossi/mpc/compiler/circuits"
 	"github.com/markkurossi/mpc/compiler/ssa"
 	"github.com/markkurossi/mpc/compiler/utils"
 	"github.com/markkurossi/mpc/types"
@@ -1210,6 +1212,8 @@ var c03Modelled = map[ssa.Operand]bool{
 	ssa.Ige: true, ssa.Uge: true, ssa.Eq: true, ssa.Neq: true, ssa.And: true, ssa.Or: true, ssa.Not: true,
 	ssa.Mov: true, ssa.Smov: true, ssa.Lshift: true, ssa.Rshift: true, ssa.Srshift: true,
 	ssa.Slice: true, ssa.Amov: true, ssa.Index: true, ssa.Phi: true,
+	ssa.Concat: true, ssa.Bts: true, ssa.Btc: true,
+	ssa.Builtin: true, // only circuits.Hamming (checked in c03SSASX)
 }
 
 // c03SSASX converts the parsed listing into the term of Lang/Ssa.v.  The
@@ -1322,6 +1326,15 @@ func c03SSASX(res *c03Compiled) (SX, string) {
 		aux := 0
 		if in.Op == ssa.Index {
 			aux = int(in.In[0].Type.ElementType.Bits)
+		}
+		if in.Op == ssa.Builtin {
+			// the listing prints "builtin" only; the function is taken from the
+			// in-memory instruction: 1 = circuits.Hamming (the only builtin
+			// ast/builtin.go emits)
+			if in.Builtin == nil || reflect.ValueOf(in.Builtin).Pointer() != reflect.ValueOf(circuits.Builtin(circuits.Hamming)).Pointer() {
+				return SX{}, "unmodelled builtin"
+			}
+			aux = 1
 		}
 		instrs = append(instrs, L(I(int(in.Op)), I(aux), Bool(lo.kind == "i"), I(lo.bits), L(args...)))
 		idx[okey] = next
@@ -1868,6 +1881,9 @@ func runC03(c *Ctx) error {
 				c03cgCase(c, p.src(), ssx, vecs, &out.res) // SSA -> circuit model (c03cg.go, modes 4/5)
 			} else {
 				ssaSkipped[why]++
+				if ssaSkipped[why] == 1 {
+					c.Note("first program whose SSA listing was skipped (%s):\n%s", why, p.src())
+				}
 			}
 			if i < 3 {
 				c.Sample(map[string]string{"program": p.src(), "inputs": c03VecStr(vecs[0]), "outputs": c03VecStr(out.outs[0])})
@@ -1955,6 +1971,7 @@ func runC03(c *Ctx) error {
 	for key, n := range reported {
 		c.Note("oracle failures with key %s: %d programs", key, n)
 	}
+	c03cgOpcodeFamily(c) // directed programs: concat, builtin, bts/btc (c03cg.go)
 	return c03Testsuite(c)
 }
 
